@@ -116,6 +116,10 @@ def main():
             pid, open_sigs[sig]["what"], sig, m["viol_sigs"].get(sig, 0), json.dumps(v["case"])[:200]))
     OUT = os.environ.get("VERIF_OUT", HERE)   # mutant trials redirect evidence/replays away from /verif
     rdir = os.path.join(OUT, "replays", pid)
+    if os.path.isdir(rdir):                      # replay artefacts always belong to the latest run
+        for fn in os.listdir(rdir):
+            if fn.endswith(".json"):
+                os.remove(os.path.join(rdir, fn))
     if real or (det is False and getattr(mod, "DETERMINISM_IS_PROPERTY", False)) or crashes:
         os.makedirs(rdir, exist_ok=True)
     for k, v in enumerate(real[:20]):
